@@ -138,6 +138,159 @@ def _uncond(n):
     return out
 
 
+
+def check_parser_by_evaluation(ctx, u, us, Pr, Pc, Pstr):
+    """C05-R10: the three entry points folded on a document corpus (nothing is compiled or run:
+    the checker interprets the AST of the current source with models of std::string, the reader
+    object and the JSON value)."""
+    import json as _json
+    from peval import PEval, Lit, Str, JV, Rec, Thrown, Fault, Undecided
+    R = 'C05-R10'
+    PE = PEval([u, us], max_depth=80, max_iter=20000)
+    OKEXC = ('phosg::JSON::parse_error', 'std::out_of_range')
+
+    def run_c(txt, strict):
+        return PE.call_with(Pc, [Lit(bytes(txt)), len(txt), strict])
+
+    def outcome(fn):
+        try:
+            v = fn()
+            return ('value', v.py() if isinstance(v, JV) else v, v)
+        except Thrown as e:
+            return ('throw', e.etype, e)
+        except Fault as e:
+            return ('fault', str(e), None)
+
+    def same(a, b):
+        if isinstance(a, float) or isinstance(b, float):
+            return isinstance(a, float) and isinstance(b, float) and (a == b or abs(a - b) <= 1e-9 * max(abs(a), abs(b)))
+        if isinstance(a, list):
+            return isinstance(b, list) and len(a) == len(b) and all(same(x, y) for x, y in zip(a, b))
+        if isinstance(a, dict):
+            return isinstance(b, dict) and set(a) == set(b) and all(same(a[k], b[k]) for k in a)
+        return type(a) is type(b) and a == b
+
+    def ref(txt):
+        def conv(o):
+            if isinstance(o, str):
+                return o.encode('latin1')
+            if isinstance(o, list):
+                return [conv(x) for x in o]
+            if isinstance(o, dict):
+                return {k.encode('latin1'): conv(v) for k, v in o.items()}
+            return o
+        return conv(_json.loads(txt.decode('latin1'), strict=False))
+    std_docs = [b'null', b'true', b'false', b'0', b'-0', b'1', b'-1', b'12', b'1234567890', b'9223372036854775807', b'-9223372036854775807',
+                b'0.5', b'-0.25', b'1.5e3', b'5e-1', b'1E+2', b'1e0', b'2.5E-3', b'12.5e1', b'1.0',
+                b'""', b'"a"', b'"abc def"', b'"\\""', b'"\\\\"', b'"\\/"', b'"\\b\\f\\n\\r\\t"', b'"\\u0041"', b'"\\u00e9"', b'"\\u00FF"', b'"a\\u0020b"',
+                b'[]', b'{}', b'[1]', b'[1,2,3]', b'[[]]', b'[[],[]]', b'[{}]', b'{"a":1}', b'{"a":{"b":[1,{"c":null}]}}', b'{"":""}', b'{"k":[true,false,null]}',
+                b' [ 1 , 2 ] ', b'\t{\r\n "a" : [ ] ,\n "b" : { } }\n', b'[1.5,"x",{"y":[2e2]}]', b'[0,-1,5e-1,"\\n"]']
+    ext_docs = [(b'[1,]', [1]), (b'[1,2 , ]', [1, 2]), (b'{"a":1,}', {b'a': 1}), (b'0x1F', 31), (b'-0x10', -16), (b'[0xff]', [255]),
+                (b'n', None), (b't', True), (b'f', False), (b'[t,f,n]', [True, False, None]), (b'// c\n1', 1), (b'[1, // c\n 2]', [1, 2]), (b'{"a": // x\r 1}', {b'a': 1}), (b'{"a":[1,]}', {b'a': [1]})]
+    bad = []
+    und = [None]
+    n_ok = [0]
+
+    def note(key, why, node=None):
+        bad.append((key, why, node))
+
+    def guarded(fn):
+        try:
+            return outcome(fn)
+        except Undecided as e:
+            und[0] = str(e)
+            return None
+    # (a) standard documents: both modes, both flat entry points, and the reader entry point's extent
+    for d in std_docs:
+        want = ref(d.strip(b' \t\r\n') if False else d)
+        for strict in (0, 1):
+            for nm, call in (('(const char*, size_t)', lambda: run_c(d, strict)), ('(const std::string&)', lambda: PE.call_with(Pstr, [Str(d), strict]))):
+                o = guarded(call)
+                if o is None:
+                    break
+                if o[0] != 'value':
+                    note('standard|%s' % d.decode('latin1'), 'the standard document %r is rejected by parse%s in %s mode (%s)' % (d.decode('latin1'), nm, 'strict' if strict else 'default', o[1]), getattr(o[2], 'node', None))
+                elif not same(o[1], want):
+                    note('standard|%s' % d.decode('latin1'), 'the standard document %r parses to %r in %s mode; the reference value is %r' % (d.decode('latin1'), o[1], 'strict' if strict else 'default', want))
+                else:
+                    n_ok[0] += 1
+            if und[0]:
+                break
+            # reader entry point: exactly one value is consumed (leading whitespace included, nothing after it)
+            core = d.rstrip(b' \t\r\n')
+            rd = PE.new_object('phosg::StringReader')
+            tail = b' ,]x'
+            if rd is not None:
+                rd.f.update({'data': Lit(core + tail), 'length': len(core + tail), 'offset': 0})
+                o = guarded(lambda: PE.call_with(Pr, [rd, strict]))
+                if o is not None and o[0] == 'value' and rd.f.get('offset') != len(core):
+                    note('reader-extent|%s' % d.decode('latin1'), 'parse(StringReader&) on %r followed by other data leaves the reader at offset %s; the value ends at %d' % (core.decode('latin1'), rd.f.get('offset'), len(core)))
+                elif o is not None and o[0] == 'value':
+                    n_ok[0] += 1
+        if und[0]:
+            break
+    # (b) extensions: default mode gives the documented meaning, strict mode rejects with parse_error
+    if not und[0]:
+        for d, want in ext_docs:
+            o = guarded(lambda: run_c(d, 0))
+            if o is None:
+                break
+            if o[0] != 'value' or not same(o[1], want):
+                note('extension|%s' % d.decode('latin1'), 'in default mode %r gives %s; the documented meaning is %r' % (d.decode('latin1'), o[1] if o[0] == 'value' else 'an exception (%s)' % o[1], want), getattr(o[2], 'node', None))
+            else:
+                n_ok[0] += 1
+            o = guarded(lambda: run_c(d, 1))
+            if o is None:
+                break
+            if not (o[0] == 'throw' and o[1] == 'phosg::JSON::parse_error'):
+                note('strict|%s' % d.decode('latin1'), 'strict mode %s the extension document %r; it must be rejected with parse_error' % ('accepts (value %r)' % (o[1],) if o[0] == 'value' else 'answers %s to' % o[1], d.decode('latin1')), getattr(o[2], 'node', None))
+            else:
+                n_ok[0] += 1
+    # (c) robustness: truncations and single-byte edits end in a value, parse_error or out_of_range
+    if not und[0]:
+        base = std_docs + [d for d, _ in ext_docs]
+        if ctx.tier != 'thorough':
+            base = [b'{"a":[1,{"c":null}]}', b'[1.5e1,"x\\n"]', b'"\\u00e9"', b'[1, // c\n 2]', b'-0x10', b'{"a":1,}']
+        seen = set()
+        for d in base:
+            variants = [d[:k] for k in range(len(d))]
+            for k in range(len(d)):
+                for c in (b'"', b'\\', b',', b'}', b']', b'x', b'\x00', b'\xff', b'-', b'e', b'/') if ctx.tier == 'thorough' else (b'\\', b'\x00'):
+                    variants.append(d[:k] + c + d[k + 1:])
+                variants.append(d[:k] + d[k + 1:])
+            for v_ in variants:
+                if v_ in seen:
+                    continue
+                seen.add(v_)
+                for strict in (0, 1):
+                    o = guarded(lambda: run_c(v_, strict))
+                    if o is None:
+                        break
+                    if o[0] == 'fault':
+                        note('robust|fault', 'on the input %r (%s mode) the parser %s' % (v_, 'strict' if strict else 'default', o[1]))
+                    elif o[0] == 'throw' and o[1] not in OKEXC:
+                        note('robust|exception', 'on the input %r (%s mode) the parser lets %s escape; only parse_error and out_of_range are documented' % (v_, 'strict' if strict else 'default', o[1]), getattr(o[2], 'node', None))
+                    else:
+                        n_ok[0] += 1
+                if und[0]:
+                    break
+            if und[0]:
+                break
+    if und[0]:
+        ctx.undecided(R, 'corpus', Pr, 'the parser could not be evaluated (%s)' % und[0])
+    groups = {}
+    for key, why, node in bad:
+        groups.setdefault(key.split('|')[0], []).append((key, why, node))
+    for g in ('standard', 'reader-extent', 'extension', 'strict', 'robust'):
+        items = groups.get(g, [])
+        if items:
+            for key, why, node in items[:6]:
+                ctx.bad(R, key, node or Pc, why)
+        elif not und[0]:
+            ctx.ok(R, g + '|all', Pc, {'standard': 'every standard document is accepted in both modes with the reference value', 'reader-extent': 'the reader entry point consumes exactly one value',
+                                       'extension': 'every documented extension has its documented meaning in default mode', 'strict': 'strict mode rejects every extension document with parse_error',
+                                       'robust': 'every truncation / single-byte edit ends in a value, parse_error or out_of_range'}[g] + ' (%d evaluations in all)' % n_ok[0])
+
 def run(ctx):
     ctx.rule('C05-R1', 'every extension site (comment start, early close after a comma in dict/list, hex integer, n/t/f) is unreachable when disable_extensions is true', 7)
     ctx.rule('C05-R2', 'every recursive parse / skip_whitespace_and_comments call passes the caller\'s own disable_extensions', 10)
@@ -148,6 +301,7 @@ def run(ctx):
     ctx.rule('C05-R7', 'string entry points reject trailing data: skip whitespace, then throw unless eof; std::string overload forwards with the flag', 3)
     ctx.rule('C05-R8', 'numerals with a fraction or an exponent are classified as floats before the int/float decision; fraction digits are accumulated in floating point', 4)
     ctx.rule('C05-R9', 'whitespace skipping stops at every byte other than space, tab, CR, LF (and the `//` of the comment extension): evaluated for all 256 byte values under both modes', 512)
+    ctx.rule('C05-R10', 'parser by evaluation (E-TABLE with an object model of StringReader and JSON values): standard documents are accepted in both modes with the value python json assigns; each documented extension is accepted in default mode with its meaning and rejected with parse_error in strict mode (also nested); the reader entry point consumes exactly one value; every truncation and single-byte edit of the documents terminates with a value, parse_error or out_of_range and never reads outside the input', 4)
     u = ctx.unit(repo_unit('JSON.cc'))
     us = ctx.unit(repo_unit('Strings.cc'))
     reader, cptr, strs = parse_fns(u)
@@ -433,6 +587,8 @@ def run(ctx):
         ctx.check(all(x.get('_off', 0) < dec.get('_off', 0) for x, _, _ in markers), R, 'decision-after-markers', dec, 'int/float decision is taken after scanning', 'the int/float decision precedes the fraction/exponent scan')
     with ctx.section('C05-R9', 'C05'):
         check_whitespace_set(ctx, u, S, sflag)
+    with ctx.section('C05-R10', P):
+        check_parser_by_evaluation(ctx, u, us, reader[0], cptr[0], strs[0])
     ctx.note('Entry points: JSON::parse(StringReader&, bool), (const char*, size_t, bool), (const std::string&, bool); callees resolved across JSON.cc and Strings.cc.')
 
 
